@@ -266,7 +266,7 @@ pub fn worker_main(check: &dyn Check, tier: Tier, seed: u64, shard: u64, nshards
             let line = json!({"v": {"index": i, "run_seed": rs, "scenario": sc, "violations": o.violations}});
             let _ = writeln!(res, "{}", line);
         }
-        if done.runs % 64 == 0 {
+        if done.runs % 16 == 0 {
             // cumulative checkpoint of this incarnation (survives a later process death)
             let _ = hashes.flush();
             let _ = writeln!(res, "{}", json!({"ckpt": start, "done": done}));
@@ -296,7 +296,21 @@ struct W {
     prefix: String,
     last_crumb: String,
     last_change: Instant,
+    /// CPU time (clock ticks) the worker had consumed when its crumb last changed
+    cpu_at_change: u64,
     deaths: u64,
+}
+
+/// user+system CPU time of a process in clock ticks (0 if unknown). The watchdog is based on CPU time consumed
+/// without progress, not on wall-clock time, so that a worker starved by other load is never mistaken for a hang.
+fn cpu_ticks(pid: u32) -> u64 {
+    let Ok(s) = std::fs::read_to_string(format!("/proc/{}/stat", pid)) else { return 0 };
+    let Some(rest) = s.rsplit_once(") ").map(|x| x.1) else { return 0 };
+    let f: Vec<&str> = rest.split_whitespace().collect();
+    // fields after the command: state(0) ... utime is field 14 overall -> index 11 here, stime index 12
+    let u: u64 = f.get(11).and_then(|x| x.parse().ok()).unwrap_or(0);
+    let st: u64 = f.get(12).and_then(|x| x.parse().ok()).unwrap_or(0);
+    u + st
 }
 
 fn spawn_worker(id: &str, tier: Tier, seed: u64, shard: u64, n: u64, start: u64, prefix: &str) -> Child {
@@ -348,7 +362,7 @@ pub fn run_workers(check: &dyn Check, tier: Tier, seed: u64, jobs: u64) -> RunSu
         .map(|s| {
             let prefix = dir.join(format!("w{}", s)).display().to_string();
             let child = spawn_worker(id, tier, seed, s, jobs, 0, &prefix);
-            W { shard: s, child, prefix, last_crumb: String::new(), last_change: Instant::now(), deaths: 0 }
+            W { shard: s, child, prefix, last_crumb: String::new(), last_change: Instant::now(), cpu_at_change: 0, deaths: 0 }
         })
         .collect();
     let mut found: Vec<Found> = Vec::new();
@@ -365,9 +379,12 @@ pub fn run_workers(check: &dyn Check, tier: Tier, seed: u64, jobs: u64) -> RunSu
             if c != w.last_crumb {
                 w.last_crumb = c.clone();
                 w.last_change = Instant::now();
+                w.cpu_at_change = cpu_ticks(w.child.id());
             }
             let status = w.child.try_wait().ok().flatten();
-            let hung = status.is_none() && w.last_change.elapsed() > watchdog && !w.last_crumb.is_empty();
+            // hung = no progress while the worker itself burned `watchdog` seconds of CPU (100 ticks per second)
+            let burned = cpu_ticks(w.child.id()).saturating_sub(w.cpu_at_change);
+            let hung = status.is_none() && !w.last_crumb.is_empty() && w.last_change.elapsed() > watchdog && burned > watchdog.as_secs() * 100;
             if hung {
                 let _ = w.child.kill();
                 let _ = w.child.wait();
@@ -402,7 +419,7 @@ pub fn run_workers(check: &dyn Check, tier: Tier, seed: u64, jobs: u64) -> RunSu
                         let alloc = res_txt.lines().rev().find(|l| l.starts_with("ALLOC ")).map(|l| l.to_string());
                         let label = sc.get("label").and_then(|v| v.as_str()).unwrap_or("?").to_string();
                         let (oracle, sig, detail) = if hung {
-                            ("bounded_liveness", format!("hang:{}", label), format!("worker made no progress for {:?} in run {}", watchdog, i))
+                            ("bounded_liveness", format!("hang:{}", label), format!("worker burned more than {:?} of CPU time without finishing run {}", watchdog, i))
                         } else if let Some(a) = alloc {
                             ("memory_budget", format!("alloc-abort:{}", label), format!("process aborted after allocation request '{}' ({}) in run {}", a, how, i))
                         } else {
@@ -416,6 +433,7 @@ pub fn run_workers(check: &dyn Check, tier: Tier, seed: u64, jobs: u64) -> RunSu
                         w.child = spawn_worker(id, tier, seed, w.shard, jobs, i + 1, &w.prefix);
                         w.last_crumb = String::new();
                         w.last_change = Instant::now();
+                        w.cpu_at_change = 0;
                     }
                     _ => {
                         eprintln!("HARNESS ERROR: worker {} died ({}) with crumb '{}' (deaths {})", w.shard, how, crumb_now, w.deaths);
@@ -754,4 +772,85 @@ pub fn exec_one_main(check: &dyn Check, path: &str) {
     crate::alloc::set_report_fd(1);
     let o = exec_guarded(check, &sc);
     println!("OUTCOME {}", serde_json::to_string(&o.violations).unwrap());
+}
+
+// ---------------------------------------------------------------------------------------------
+// self-test of the supervisor: a fake check whose scenarios hang, abort, over-allocate and overflow the stack
+
+pub struct SelfCheck;
+
+#[allow(unconditional_recursion)]
+fn recurse(n: u64) -> u64 {
+    let a = [n; 64];
+    recurse(n + 1) + a[(n % 64) as usize]
+}
+
+impl Check for SelfCheck {
+    fn id(&self) -> &'static str {
+        "SELF"
+    }
+    fn level(&self) -> &'static str {
+        "other"
+    }
+    fn rule(&self) -> String {
+        "supervisor self-test".into()
+    }
+    fn assumptions(&self) -> Vec<String> {
+        vec![]
+    }
+    fn components(&self) -> Value {
+        json!({})
+    }
+    fn plan(&self, _tier: Tier) -> (u64, u64) {
+        (64, 0)
+    }
+    fn gen(&self, i: u64, _seed: u64, _tier: Tier) -> Value {
+        let what = match i {
+            11 => "hang",
+            23 => "abort",
+            37 => "alloc",
+            41 => "stack",
+            _ => "ok",
+        };
+        json!({"label": format!("self:{}", what), "what": what})
+    }
+    fn exec(&self, sc: &Value) -> Outcome {
+        let mut o = Outcome::default();
+        match sc["what"].as_str().unwrap_or("") {
+            "hang" => loop {
+                std::hint::black_box(0);
+            },
+            "abort" => std::process::abort(),
+            "alloc" => {
+                let v: Vec<u8> = Vec::with_capacity(7 << 30);
+                std::hint::black_box(&v);
+            }
+            "stack" => {
+                std::hint::black_box(recurse(0));
+            }
+            _ => {}
+        }
+        o.log_hash = 1;
+        o
+    }
+    fn shrink(&self, _sc: &Value) -> Vec<Value> {
+        vec![]
+    }
+}
+
+/// exit 0 if the supervisor attributed every injected failure to the right run
+pub fn selftest_supervisor() -> i32 {
+    std::env::set_var("VERIF_WATCHDOG_S", "3");
+    let sum = run_workers(&SelfCheck, Tier::Quick, 1, 4);
+    let mut got: Vec<(u64, String)> = sum.found.iter().map(|f| (f.index, f.violations[0].sig.clone())).collect();
+    got.sort();
+    let want = vec![(11u64, "hang:self:hang".to_string()), (23, "abort:self:abort".to_string()), (37, "alloc-abort:self:alloc".to_string()), (41, "abort:self:stack".to_string())];
+    println!("attributed: {:?}", got);
+    if got == want && sum.done.runs >= 32 {
+        println!("supervisor self-test passed ({} runs completed, {} worker deaths attributed)", sum.done.runs, sum.worker_deaths);
+        0
+    } else {
+        println!("HARNESS ERROR: supervisor self-test failed, wanted {:?}", want);
+        2
+    }
 }
